@@ -1298,11 +1298,17 @@ func (in *Interp) callClosure(clo *Closure, args []Value) (result Value) {
 	if rerr == nil {
 		popFrame()
 	}
-	for _, p := range act.defers {
+	for di, p := range act.defers {
 		func() {
 			defer func() {
 				if r := recover(); r != nil {
 					if e, ok := r.(*RErr); ok {
+						if e.Cat == "panic" && di < len(act.defers)-1 {
+							// a Go panic (integer division by zero) out of a deferred call: the VM's loop over
+							// the remaining deferred calls of this frame is abandoned, which the statement
+							// does not pin either way
+							in.tag("undecided")
+						}
 						if rerr != nil && rerr.Cat == "panic" && e.Cat != "panic" {
 							// a deferred call failing while a Go panic (integer division by zero) unwinds:
 							// which of the two the caller sees is not pinned by the statement
